@@ -26,6 +26,7 @@ pub fn run(check: &mut Check) {
     if check.is_replay() {
         vcommon::harness_error("C10/C11 build batches of worlds; re-run ./check <ID> quick to reproduce (worlds are a function of VERIF_SEED)");
     }
+    vcommon::abort::install(&check.id, "worlds", check.sub_seed("worlds", 0));
     let nworlds = std::env::var("VERIF_N").ok().and_then(|s| s.parse().ok()).unwrap_or(check.tier.pick(120usize, 2500));
     let vars = variants();
     let worlds: Vec<ProxyWorld> = check.draw("worlds", &exec::world_strategy(false, false), nworlds);
